@@ -3,8 +3,9 @@
 
     Executable model transcribed from mesh.py, lists/{vertex,block,patch}_list.py, items/patch.py,
     items/side.py, construct/flat/face.py (Face.update); Mesh.grade (items/wires/{manager,axis,wire}.py,
-    lists/block_list.py) is the propagation model of Model/Propagate.v (C01/C02), run from the state the
-    previous write left on the blocks (Model/C12_Regrade.v).  No proofs in this file.
+    lists/block_list.py) is the propagation model of Model/Propagate.v (C01/C02); since fixes/C12-4.diff every
+    grade first resets what the previous one left on the blocks ([C12_Regrade.grade]; the un-reset run of the
+    code before that repair is [C12_Regrade.grade_no_reset], cfg [before_reset]).  No proofs in this file.
 
     Scope of the model (the correspondence is run inside this scope only):
     - every depot entity is a single Operation with straight edges, no projections, no cell zone
@@ -20,7 +21,7 @@
       with them, Properties/C12.v).
 
     The tables of util/constants.py the code consults are parameters ([tables]); their current values
-    are tabulated into Gen/C12/Tables.v on every run.  The three repairs delivered with this property
+    are tabulated into Gen/C12/Tables.v on every run.  The four repairs delivered with this property
     are switches of [cfg], so that both the repaired and the original behaviour are transcribed:
     the theorems are about [fixed], the refutations about the original code. *)
 From Coq Require Import List Bool Arith ZArith.
@@ -40,9 +41,11 @@ Record tables := {
   default_kind : nat                   (* Patch(name).kind, as an index into the harness' kind pool *)
 }.
 
-Record cfg := { fx_grade : bool; fx_clear : bool; fx_backport : bool }.
-Definition fixed : cfg := {| fx_grade := true; fx_clear := true; fx_backport := true |}.
-Definition original : cfg := {| fx_grade := false; fx_clear := false; fx_backport := false |}.
+Record cfg := { fx_grade : bool; fx_clear : bool; fx_backport : bool; fx_reset : bool }.
+Definition fixed : cfg := {| fx_grade := true; fx_clear := true; fx_backport := true; fx_reset := true |}.
+Definition original : cfg := {| fx_grade := false; fx_clear := false; fx_backport := false; fx_reset := false |}.
+(** the code with the first three repairs but before fixes/C12-4.diff (grade() did not reset) *)
+Definition before_reset : cfg := {| fx_grade := true; fx_clear := true; fx_backport := true; fx_reset := false |}.
 
 (** ** user entities *)
 Record op := {
@@ -285,6 +288,11 @@ Fixpoint backport_ops_orig (V : list vtx) (bs : list blk) (dep : list nat) (stor
       end
   end.
 
+(** BlockList.grade_blocks resets every wire manager first (fixes/C12-4.diff) *)
+Definition grade_cfg (c : cfg) (bs : list Propagate.blk) (oc : Propagate.wire -> list Propagate.wire)
+  (on : Propagate.axis -> list Propagate.axis) (s : Propagate.st) : C12_Regrade.gres :=
+  if fx_reset c then C12_Regrade.grade bs oc on s else C12_Regrade.grade_no_reset bs oc on (fx_grade c) s.
+
 (** [E_model]: the propagation loop ran out of fuel or the oracle is not an ordering of the coincident
     wires / neighbour axes; neither happens with [ins_oracle] (PropagateTerm.run_terminates,
     PropagateFinal.insertion_oracle_ok) *)
@@ -292,7 +300,7 @@ Definition write_with (orc : oracle) (c : cfg) (tb : tables) (s : st) : outcome 
   let s1 := if is_assembled s then s else assemble tb s in
   if negb (is_assembled s1) then Err E_runtime else
   let bs := map pblk (blocks s1) in
-  match C12_Regrade.grade bs (fst (orc bs)) (snd (orc bs)) (fx_grade c) (gstate (blocks s1)) with
+  match grade_cfg c bs (fst (orc bs)) (snd (orc bs)) (gstate (blocks s1)) with
   | C12_Regrade.GOk p =>
       let s2 := with_lists s1 (verts s1) (store_gr p (blocks s1)) (patches s1) in Ok s2 [EFile (render s2)]
   | C12_Regrade.GUndefined => Err E_undefined
